@@ -39,6 +39,8 @@ pub struct Exchange {
     pub body: BodyPlan,
     /// bytes for a close-delimited body if the rules make it one
     pub close_data: Vec<u8>,
+    /// further bare 100 responses right behind the first one (only with Late100)
+    pub extra_interim: usize,
 }
 
 #[derive(Clone, Debug)]
@@ -90,7 +92,14 @@ impl Exchange {
         let interim_len = match self.handshake {
             Handshake::Got100 | Handshake::Late100(_) => {
                 stream.extend_from_slice(&interim);
-                interim.len()
+                let mut n = interim.len();
+                if matches!(self.handshake, Handshake::Late100(_)) {
+                    for _ in 0..self.extra_interim {
+                        stream.extend_from_slice(&interim);
+                        n += interim.len();
+                    }
+                }
+                n
             }
             _ => 0,
         };
